@@ -2226,7 +2226,8 @@ def list_packages_model(repo):
         out = []
         for order in ('fwd', 'rev'):
             itl.set_order = order
-            for root, want in (('pkg', {'a', 'b', 'sub', 'z', 'loaded', 'speed', 'stable', 'old'}),
+            # (<P1>/pkg/z.py is not importable: pkg is bound to the first root that has it, <S1>/pkg)
+            for root, want in (('pkg', {'a', 'b', 'sub', 'loaded', 'speed', 'stable', 'old'}),
                                ('', {'pkg', 'pkgother', 'other', 'top', 'lib'})):
                 try:
                     p = itl.instantiate(proj, [['<S1>', '<S2>']], {})
@@ -2238,8 +2239,9 @@ def list_packages_model(repo):
                 except Uninterpretable as e:
                     raise AnalysisError('list_packages is outside the interpretable subset: %s' % e)
                 out.append(('lp', 'list_packages(%r) walks sources, sys.path and sys.modules [%s]' % (root, order), got == want,
-                            'on the modelled file system list_packages(%r) must give %s (modules of every root with a suffix of the '
-                            'shared table, packages with __init__.py, loaded modules); got %s' % (root, sorted(want), exc or sorted(got)),
+                            'on the modelled file system list_packages(%r) must give %s (modules with a suffix of the shared table and packages with '
+                            '__init__.py - for a package: in the directory of the first root that has it, which is what import binds it to -, '
+                            'loaded modules); got %s' % (root, sorted(want), exc or sorted(got)),
                             'list_packages(%r) = %s' % (root, sorted(want))))
                 bad = sorted(x for x in (got or ()) if not (isinstance(x, str) and x.isidentifier()))
                 out.append(('lp-ident', 'list_packages(%r) proposes identifiers [%s]' % (root, order), got is not None and not bad,
